@@ -2,6 +2,7 @@ import PyrexVerif.Proofs.Noise
 import PyrexVerif.Proofs.NoiseInterp
 import PyrexVerif.Proofs.NoiseOrtho
 import PyrexVerif.Proofs.NoisePhase
+import PyrexVerif.Proofs.NoiseRayleigh
 import PyrexVerif.Proofs.NoiseCollision
 import PyrexVerif.Proofs.NoisePeriodIff
 import PyrexVerif.Proofs.NoiseHermitian
@@ -89,6 +90,25 @@ theorem C17_irfft_is_cos_sum (N : FFTNoise) (hwf : N.WellFormed) (hn : 0 < N.nAl
     nsum_map_mul, ← hwf.freqs_map]
   unfold basisWave cosSum
   simp only [Rsqrt, RofNat]
+  rw [← two_sqrt_half]
+  ring
+
+/-- the same with the DC bin in the band (bands touching 0): its amplitude is forced to zero by the
+constructor (`dcZero`), so bin 0 contributes nothing to either side and the grid values are still the
+cosine sum of the published basis — the hypothesis `0 < k` of `C17_irfft_is_cos_sum` excludes nothing
+that behaves differently -/
+theorem C17_irfft_is_cos_sum_dc (N : FFTNoise) (hwf : N.WellFormed) (hn : 0 < N.nAll) (hdt : N.dt ≠ 0)
+    (ks : List Nat) (as ps : List ℝ) (p : ℝ)
+    (hidx : bandIdxFrom 0 N.mask = 0 :: ks) (hks : ∀ k ∈ ks, 0 < k ∧ 2 * k ≠ N.nAll)
+    (hamps : N.basis.amps = 0 :: as) (hphases : N.basis.phases = p :: ps) (j : Nat) :
+    N.gridValue j * N.basis.rms = basisWave (-1) N.basis ((j : ℝ) * N.dt) := by
+  have hnR : (N.nAll : ℝ) ≠ 0 := by exact_mod_cast hn.ne'
+  rw [N.gridValue_expansion hwf hn, hidx, hamps, hphases]
+  unfold basisWave cosSum
+  rw [hwf.freqs_map, hidx, hamps, hphases]
+  simp only [bandTerms, List.map_cons, cosTerms, nsum_cons, zero_mul, mul_zero, zero_add]
+  rw [bandTerms_interior N.nAll j N.dt hnR hdt ks as ps hks, nsum_map_mul]
+  simp only [Rsqrt, RofNat, List.length_cons, List.length_map]
   rw [← two_sqrt_half]
   ring
 
@@ -375,6 +395,18 @@ theorem C17_rayleigh_mean_square {Ω : Type} [MeasurableSpace Ω] (μ : Measure 
   simp_rw [hA2]
   simp
   field_simp
+
+/-- the Rayleigh law with the scale the source uses, `σ = 1/√2`, is a probability density on `(0,∞)` with
+second moment 1 (for any `σ > 0`: total mass 1, second moment `2σ²`).  This discharges the hypothesis `hA2`
+of `C17_rayleigh_mean_square` for amplitudes that have that density; what remains assumed is only that
+`numpy.random.rayleigh(scale)` samples it (checked empirically by the `statistics` oracle). -/
+theorem C17_rayleigh_second_moment :
+    (∀ σ : ℝ, 0 < σ → (∀ x, 0 ≤ x → 0 ≤ PyrexNoise.rayleighPdf σ x) ∧
+      ∫ x in Set.Ioi (0 : ℝ), PyrexNoise.rayleighPdf σ x = 1 ∧
+      ∫ x in Set.Ioi (0 : ℝ), x ^ 2 * PyrexNoise.rayleighPdf σ x = 2 * σ ^ 2) ∧
+    ∫ x in Set.Ioi (0 : ℝ), x ^ 2 * PyrexNoise.rayleighPdf (1 / Real.sqrt 2) x = 1 :=
+  ⟨fun σ hσ => ⟨fun x hx => PyrexNoise.rayleighPdf_nonneg σ x hx, PyrexNoise.rayleigh_total_mass σ hσ,
+    PyrexNoise.rayleigh_second_moment σ hσ⟩, PyrexNoise.rayleigh_second_moment_numpy⟩
 
 /-! ## same basis ⇒ same waveform; values are a function of absolute time -/
 
